@@ -29,8 +29,15 @@ for d in sorted(glob.glob(os.path.join(HERE, "seeded", "C*-*"))):
     finally:
         subprocess.run(["git", "-C", "/repo", "checkout", "--", "."])
     print(rows[-1], flush=True)
+# the matrix file is regenerated from every meta.json (so partial runs keep the other rows)
+allrows = []
+for d in sorted(glob.glob(os.path.join(HERE, "seeded", "C*-*"))):
+    meta = json.load(open(os.path.join(d, "meta.json")))
+    for chk, res in (meta.get("caught_by") or {"(not run)": {"exit": None, "violation_kinds": [], "repo_head": "-"}}).items():
+        verdict = {0: "MISSED", 1: "caught", 2: "inconclusive", None: "not run"}.get(res["exit"], str(res["exit"]))
+        allrows.append((os.path.basename(d), meta["property"], f"{chk}: {verdict} (/repo {res['repo_head']})", ", ".join(res["violation_kinds"])[:160]))
 with open(os.path.join(HERE, "seeded", "MATRIX.md"), "w") as f:
-    f.write(f"# Seeded changes vs checks (quick tier, /repo at {head})\n\n| seeded change | property | own check | violation kinds reported |\n|---|---|---|---|\n")
-    for r in rows:
+    f.write("# Seeded changes vs checks (written by tools/seeds_matrix.py from seeded/*/meta.json)\n\n| seeded change | property | check: verdict | violation kinds reported |\n|---|---|---|---|\n")
+    for r in allrows:
         f.write("| " + " | ".join(r) + " |\n")
 print("missed:", [r[0] for r in rows if r[2] != "caught"])
